@@ -77,14 +77,23 @@ func edgeLoopRule(c *core.Ctx, r *core.Report, rule, pkgRel, fnName string, floo
 	}
 	n := 0
 	var bad []string
-	for _, ii := range core.InlinedInstrs(c, fn, c.Depth(2), func(ins ssa.Instruction) bool {
-		call, ok := ins.(*ssa.Call)
-		if !ok {
-			return false
-		}
-		sc := call.Call.StaticCallee()
-		return sc != nil && sc.Name() == "addNext" && c.FuncPkgRel(sc) == pkgRel
-	}) {
+	// the function and the closures defined in it (a loop shared by several arms may live in a local closure)
+	roots := []*ssa.Function{fn}
+	for i := 0; i < len(roots); i++ {
+		roots = append(roots, roots[i].AnonFuncs...)
+	}
+	var all []core.InlinedInstr
+	for _, root := range roots {
+		all = append(all, core.InlinedInstrs(c, root, c.Depth(2), func(ins ssa.Instruction) bool {
+			call, ok := ins.(*ssa.Call)
+			if !ok {
+				return false
+			}
+			sc := call.Call.StaticCallee()
+			return sc != nil && sc.Name() == "addNext" && c.FuncPkgRel(sc) == pkgRel
+		})...)
+	}
+	for _, ii := range all {
 		// blocks per frame, innermost first
 		blocks := []*ssa.BasicBlock{ii.Ins.Block()}
 		for _, cs := range ii.CallChain() {
